@@ -204,11 +204,12 @@ def run(ctx, R, tier):
         R.check(ok, "C08-R4", "_handshake|denied-guard", "CONNECTOK is stored only when no denied_reason was given", f.loc(st),
                 "a connection that was to be denied (e.g. no free workers) can be accepted")
         for qn, what in (("Pyro5.server.Daemon.validateHandshake", "validator"), ("Pyro5.server.DaemonObject.get_metadata", "object-lookup")):
-            calls = ctx.calls_to(f, qn)
+            from ..engine.context import conditional_in_stmt
+            calls = [c for c in ctx.calls_to(f, qn) if not conditional_in_stmt(c)]
             cn = [n for c in calls for n in ctx.node_of(f, c)]
             ok = bool(cn) and all(any(cfg.dominates(x, n) for x in cn) for n in oks)
             R.check(ok, "C08-R4", "_handshake|%s-dominates-OK" % what, "the %s call dominates the CONNECTOK store" % what, f.loc(st),
-                    "the handshake can be accepted without the %s having run (and raised)" % what)
+                    "the handshake can be accepted without the %s having run (and raised) — e.g. the call sits in a conditional expression or behind a peer-controlled test" % what)
         rets = [n for n in cfg.nodes if n.kind == "stmt" and isinstance(n.ast, ast.Return)]
         for i, n in enumerate(sorted(rets, key=lambda n: n.lineno)):
             v = n.ast.value
